@@ -325,7 +325,11 @@ theorem ev_quant {t : Tok} (ht : isQuant t) (c : Ctx) (fuel : Nat) (x : String) 
       | .ok xs st1 =>
         match lookup x c.ids with
         | none => .fail (.stuck "ViQuantifier *begin(nodeVars)") st1.iters
-        | some var => quantLoop (fun st => ev c fuel body (some t) st) var (t == .FORALL) lo xs st1 := by
+        | some var =>
+          match st1.data[var]? with
+          | none => .fail (.stuck "SlotGuard slots.at") st1.iters
+          | some saved =>
+            restoreSlot var saved (quantLoop (fun st => ev c fuel body (some t) st) var (t == .FORALL) lo xs st1) := by
   rcases ht with rfl | rfl <;>
   · simp only [ev, dispatchesDefault, Ast.id, Ast.kids, Ast.lo]
     simp [firstVar_local]
@@ -339,7 +343,11 @@ theorem ev_decl (c : Ctx) (fuel : Nat) (x : String) (dlo dhi : Int) (dom body : 
       | .ok xs st1 =>
         match lookup x c.ids with
         | none => .fail (.stuck "ViDeclarative *begin(nodeVars)") st1.iters
-        | some var => declLoop (fun st => ev c fuel body (some .NT_DECLARATIVE_EXPR) st) var lo xs [] st1 := by
+        | some var =>
+          match st1.data[var]? with
+          | none => .fail (.stuck "SlotGuard slots.at") st1.iters
+          | some saved =>
+            restoreSlot var saved (declLoop (fun st => ev c fuel body (some .NT_DECLARATIVE_EXPR) st) var lo xs [] st1) := by
   simp only [ev, dispatchesDefault, Ast.id, Ast.kids, Ast.lo]
   simp [firstVar_local]
   rfl
